@@ -42,7 +42,16 @@ Example C02_example :
   hand_rank_value true [layout 0 0; layout 12 3; layout 12 2; layout 1 1; layout 12 1; layout 9 3] = Ok 1638.
 Proof. split; vm_compute; reflexivity. Qed.
 
+From CKC Require Import Model.Proj Proofs.ProjC02.
+(* the `best` line of the correspondence check is the constant `1 1 1 1 1` on six / seven distinct real cards:
+   every entry point returns the lowest value among the five-slot sub-hands, each ranked on its own as a five *)
+Theorem C02_projection : forall chk n ws,
+  (n = 6 \/ n = 7)%nat -> HandN n ws ->
+  proj_best chk ws = [Ok true; Ok true; Ok true; Ok true; Ok true].
+Proof. exact proj_best_const. Qed.
+
 Print Assumptions C02_value.
 Print Assumptions C02_lower.
 Print Assumptions C02_attained.
 Print Assumptions C02_value5_is_rank.
+Print Assumptions C02_projection.
